@@ -68,6 +68,7 @@ func main() {
 		}
 		json.Unmarshal(b, &f)
 		alphabet = partlib.Alphabet(true)
+		partlib.BigMetas()
 		_, k, d := build(f.Replay.Ops)
 		if k != "" {
 			fmt.Printf("VIOLATION property=C02 replay=%s\n  %s: %s\n", os.Args[2], k, d)
@@ -80,6 +81,21 @@ func main() {
 	depth, budget := 4, 120*time.Second
 	if run.Thorough() {
 		depth, budget = 6, 25*time.Minute
+	}
+	// directed sequences on the merge boundary: an update whose own metadata is fine but whose union with the stored
+	// keys reaches / exceeds the 65535 entries a snapshot can count; single and batch forms, then ordinary follow-ups
+	partlib.BigMetas()
+	boundary := 0
+	for _, seqn := range [][]partlib.Op{
+		{{"ins", []partlib.ItemSpec{{0, 0, 5}}}, {"upd", []partlib.ItemSpec{{0, 1, 7}}}, {"upd", []partlib.ItemSpec{{0, 0, 4}}}, {"upd", []partlib.ItemSpec{{0, 1, 1}}}},
+		{{"ins", []partlib.ItemSpec{{0, 0, 5}}}, {"upd", []partlib.ItemSpec{{0, 1, 6}}}, {"upd", []partlib.ItemSpec{{0, 1, 1}}}, {"rem", []partlib.ItemSpec{{0, 0, 0}}}},
+		{{"ins", []partlib.ItemSpec{{0, 0, 5}}}, {"ins", []partlib.ItemSpec{{1, 1, 1}}}, {"bupd", []partlib.ItemSpec{{1, 0, 2}, {0, 1, 6}}}, {"bupd", []partlib.ItemSpec{{0, 1, 7}, {1, 1, 0}}}, {"bupd", []partlib.ItemSpec{{0, 0, 4}}}},
+		{{"bins", []partlib.ItemSpec{{0, 0, 6}, {1, 1, 5}}}, {"bupd", []partlib.ItemSpec{{0, 1, 5}, {1, 0, 6}}}, {"brem", []partlib.ItemSpec{{0, 0, 0}, {1, 0, 0}}}},
+	} {
+		boundary += len(seqn)
+		if _, k, d := build(seqn); k != "" {
+			run.Violation(k+":merge-boundary", fmt.Sprintf("%v: %s", seqn, d), map[string]interface{}{"ops": seqn})
+		}
 	}
 	alphabet = partlib.Alphabet(run.Thorough())
 	samples := &ev.Samples{N: 5}
@@ -103,6 +119,7 @@ func main() {
 		"BytesSize() is only required to lie in [D, D + Len*4096] where D is the exact data byte count",
 	}
 	run.Finish(ev.Coverage{
+		"merge_boundary_entries":        boundary,
 		"states":                        st.States,
 		"transitions":                   st.Transitions,
 		"traces_validated_against_impl": st.Transitions,
